@@ -34,7 +34,7 @@ class C06(Check):
         "_renderer/_display_animated/_format_render (with the real ImageIterator) write into a recording stream; frames are glyph "
         "boxes of symbolic width (one glyph kind per frame).  Render width, padding width, terminal size, the initial cursor row "
         "(including rows that force scrolling), TTY-ness and the flags are z3 variables; frame count, loops, render height and "
-        "vertical padding are enumerated.  The byte stream is interpreted by the terminal model with scroll tracking and a symbolic "
+        "vertical padding are enumerated; the renderable API is driven with aligned (absolute / terminal-relative) and with exact per-side padding.  The byte stream is interpreted by the terminal model with scroll tracking and a symbolic "
         "probe cell in document coordinates: after every frame the probe shows that frame's glyph iff it lies in the inner rectangle "
         "fixed by the first frame, padding cells are blank, everything else untouched; the final cursor is at column 0 of the line "
         "immediately below the padded region, visible, attributes reset; the screen scrolled exactly as far as the region's height "
@@ -61,6 +61,9 @@ class C06(Check):
                     for n in b["frames"]:
                         for loops in ((1,) if n == 1 else (1, 2)):
                             out.append({"api": api, "h": h, "dv": dv, "frames": n, "loops": loops})
+                        if api == "new" and n <= 2:
+                            # exact (per-side) padding instead of the aligned kind
+                            out.append({"api": api, "h": h, "dv": dv, "frames": n, "loops": n, "pad": "exact"})
         return out
 
     def setup(self, shape, concrete):
@@ -104,18 +107,24 @@ class C06(Check):
                 k = render_data[Renderable].frame_offset
                 return Frame(k, 1, size, dc.box(dc.GLYPHS[k], w, h))
 
-        mw = eng.int("pad_w")  # absolute (> 0) or terminal-relative (<= 0)
-        ha, va = eng.choice("h_align", 3), eng.choice("v_align", 3)
-        pad = P.AlignedPadding(mw, h + shape["dv"], P.HAlign(ha), P.VAlign(va))
         check_size = bool(eng.bool("check_size"))
         allow_scroll = bool(eng.bool("allow_scroll"))
-        # geometry the documentation prescribes
-        aw = core.sym_if(mw > 0, mw, core.sym_if(W + mw > 1, W + mw, 1))
-        Wp = core.sym_if(aw > w, aw, w)
         Hp = h + shape["dv"]
-        padw = Wp - w
-        left = [0, padw // 2, padw][ha]
-        top = [0, shape["dv"] // 2, shape["dv"]][va]
+        if shape.get("pad") == "exact":
+            pl, pr = eng.int("pad_left", 0), eng.int("pad_right", 0)
+            top = eng.choice("pad_top", shape["dv"] + 1)
+            pad = P.ExactPadding(pl, top, pr, shape["dv"] - top)
+            Wp, left = w + pl + pr, pl
+        else:
+            mw = eng.int("pad_w")  # absolute (> 0) or terminal-relative (<= 0)
+            ha, va = eng.choice("h_align", 3), eng.choice("v_align", 3)
+            pad = P.AlignedPadding(mw, h + shape["dv"], P.HAlign(ha), P.VAlign(va))
+            # geometry the documentation prescribes
+            aw = core.sym_if(mw > 0, mw, core.sym_if(W + mw > 1, W + mw, 1))
+            Wp = core.sym_if(aw > w, aw, w)
+            padw = Wp - w
+            left = [0, padw // 2, padw][ha]
+            top = [0, shape["dv"] // 2, shape["dv"]][va]
         animation = n > 1
         must_reject = sym_or(sym_and(check_size or animation, Wp > W), sym_and((check_size or animation) and (animation or not allow_scroll), Hp > H))
         try:
